@@ -25,7 +25,7 @@ ASSUMPTIONS = [
     'named as a dependency depends on "everything", which the statement does not cover)',
     'invocation order between different methods is not asserted',
 ]
-REQUIRED = {'ops': 3000, 'invocations': 3000, 'overrides': 200, 'method_on_method': 200, 'function_form_ops': 300}
+REQUIRED = {'ops': 3000, 'invocations': 3000, 'overrides': 200, 'method_on_method': 200, 'function_form_ops': 300, 'methods_without_dependencies': 60}
 
 _st = {}
 PNAMES = ['p0', 'p1', 'p2', 'p3']
@@ -92,7 +92,8 @@ def run_case(idx, rng, P, rep):
             mname = f'm{ci}_{mi}'
             avail_methods = [n for n, m in {**inherited, **methods}.items() if m is not None]
             deps = []
-            for _ in range(rng.randint(1, 3)):
+            # (an empty dependency set is legitimate: the on_init-only idiom, or a bare @depends() another method names)
+            for _ in range(rng.randint(1, 3) if rng.random() < 0.88 else 0):
                 c = rng.random()
                 if c < 0.55 or not avail_methods:
                     deps.append(rng.choice(avail_params))
@@ -108,6 +109,8 @@ def run_case(idx, rng, P, rep):
             if on_init and side is None and rng.random() < 0.4 and 'p3' in avail_params:
                 se = ('p3', 42.5)
                 side = mname
+            if not deps:
+                rep.count('methods_without_dependencies')
             methods[mname] = dict(specs=deps, watch=watch, on_init=on_init, side=se)
         # overrides (a method that is named as a dependency anywhere keeps its decorator)
         named_by_others |= {dep for m in methods.values() if m for dep in m['specs'] if dep in inherited}
